@@ -483,6 +483,7 @@ type State struct {
 	defers []deferred
 	ghost  map[string]Term
 	epoch  int
+	private []modTarget // storage of locals that cannot be reached by unknown code
 }
 
 func newState() *State {
@@ -509,6 +510,7 @@ func (s *State) clone() *State {
 	}
 	n.defers = append([]deferred{}, s.defers...)
 	n.epoch = s.epoch
+	n.private = append([]modTarget{}, s.private...)
 	return n
 }
 
